@@ -29,7 +29,7 @@ REAL = ["rpyc.utils.server (accept loop, per-client threads, pool workers and po
         "the real client stack for good clients (rpyc.connect, SocketStream.connect, socket_backoff_connect)", "rpyc.lib.compat.PollingPoll"]
 STUB = ["bad clients = raw simulated sockets", "kernel/threads/clock (simulator)", "os.fork modelled for the forking server"]
 ASSUMPTIONS = ["kernel fidelity", "liveness budget 5 virtual s after the last bad script finished"]
-PROBES = ["c16:bad-client", "c16:good-client", "c16:silent-midframe", "c16:auth-failure", "c16:fresh-client-served", "c16:forged-id", "c16:event-published"]
+PROBES = ["c16:bad-client", "c16:good-client", "c16:silent-midframe", "c16:auth-failure", "c16:fresh-client-served", "c16:forged-id", "c16:event-published", "c16:credentials-checked"]
 CHUNK = 12
 BUDGET = 5.0
 D9A = "all pool workers blocked reading a partial frame"
@@ -89,9 +89,9 @@ def run_one(choices, params):
                 if not d:
                     break
                 got += d
-            if got != b"Ma6ik":
+            if got[:4] != b"Ma6i":
                 raise AuthenticationError("wrong magic word")
-            return sock, None
+            return sock, got[4:5].decode("latin-1")         # the fifth byte says who it is: the connection's credentials
         if use_auth:
             kw["authenticator"] = magic_word
         k.fd_limit["srv"] = 40          # far above what 2-8 concurrent clients need
@@ -103,10 +103,10 @@ def run_one(choices, params):
         good_state = {}
         harvested = []
 
-        def good_connect():
+        def good_connect(who="k"):
             s = SocketStream.connect(SV.SRV_HOST, 18861)
             if use_auth:
-                s.sock.sendall(b"Ma6ik")
+                s.sock.sendall(b"Ma6i" + who.encode("latin-1"))
             return rpyc.connect_stream(s, config={"sync_request_timeout": 30})
 
         def timed(label, fn, phase):
@@ -133,8 +133,15 @@ def run_one(choices, params):
             try:
                 if p["delay"]:
                     sim.sleep(p["delay"])
-                conn = timed("connect", good_connect, "during")
+                conn = timed("connect", lambda: good_connect(str(i % 10)), "during")
                 root = timed("getroot", lambda: conn.root, st["phase"])
+                if use_auth and not shared:
+                    # every connection is served under the credentials its own client presented
+                    cred = timed("credentials", lambda: root.credentials(), st["phase"])
+                    if cred != str(i % 10):
+                        raise core.Violation("cross-talk", "good client %d authenticated as %r and is served with the credentials %r" % (
+                            i, str(i % 10), cred))
+                    sim.count("c16:credentials-checked")
                 tok = "token-%d" % i
                 timed("set_token", lambda: root.set_token(tok), st["phase"])
                 me = timed("whoami", lambda: root.whoami(), st["phase"])
@@ -396,7 +403,11 @@ def run_one(choices, params):
 
     old_os, old_sig = RS.os, RS.signal
     try:
-        out, sim = H.simulate(choices, main, strategy=strat, netcfg=cfg, step_cap=3000000)
+        # (source-line pre-emption while a connection is being set up for a client: several clients' set-ups overlap)
+        traced = use_auth and kind == "threaded"          # (line tracing costs: only where set-ups of several clients can overlap and differ)
+        out, sim = H.simulate(choices, main, strategy=strat, netcfg=cfg, step_cap=3000000,
+                              trace_files=("rpyc/utils/server.py", "rpyc/core/service.py") if traced else None,
+                              trace_funcs={"_serve_client", "_connect"} if traced else None)
     finally:
         RS.os, RS.signal = old_os, old_sig
     if out["kind"] == "deadlock":
